@@ -158,6 +158,8 @@ def run(model: Model, rep: Report) -> None:
     fi = "".join(unparse(ia.node).split())
     r6.check("obj.index=self.indexself.index+=1" in fi and "forxinobj:self.run(x)" in fi and unparse(model.func(L + "IndexAssigner.__init__").node).count("index: int=0") + unparse(model.func(L + "IndexAssigner.__init__").node).count("index: int = 0") >= 1, site(ia), ia.qualname, "IndexAssigner hands out consecutive numbers from 0 in traversal order", why="changed")
 
+    # ---------------------------------------------------------------- R11
+    _group_textboxes(model, rep)
     # ---------------------------------------------------------------- R10 (shared with C20)
     from .c20 import plane_membership_rule
 
@@ -383,3 +385,43 @@ def _orientation(rep: Report, go: FuncInfo, inner: ast.If, g, cur: str) -> None:
                             elif line == "?":
                                 problems.append("line of unknown orientation")
                 r9.check(not problems, site(go, inner), go.qualname, f"halign={h}, valign={v}, current line={kind}", why="; ".join(problems))
+
+
+def _group_textboxes(model: Model, rep: Report) -> None:
+    """C08-R11: hierarchical grouping conserves boxes - a merge takes exactly the two popped elements out of the plane,
+    marks both as done and puts exactly their group back; the result is what is left in the plane."""
+    r = rep.rule("C08-R11", "PAIR", "group_textboxes: all boxes enter the plane; a merge removes both members, marks both done and adds their group on every path; the groups returned are the plane's content", 6)
+    f = model.func(LC + ".group_textboxes")
+    src = "".join(unparse(f.node).split())
+    loops = [n for n in f.node.body if isinstance(n, ast.While)]  # type: ignore[attr-defined]
+    if len(loops) != 1:
+        raise AnchorMissing("group_textboxes: main loop not found")
+    lp = loops[0]
+    pre = f.node.body[: f.node.body.index(lp)]  # type: ignore[attr-defined]
+    r.check(any("".join(unparse(s).split()) == "plane.extend(boxes)" for s in pre), site(f), f.qualname, "every text box is put into the plane before merging starts", why="plane.extend(boxes) missing before the loop")
+    pop = [s for s in lp.body if isinstance(s, ast.Assign) and "heapq.heappop(dists)" in unparse(s.value)]
+    names = [unparse(e) for e in pop[0].targets[0].elts] if pop and isinstance(pop[0].targets[0], ast.Tuple) else []
+    if len(names) != 6:
+        raise AnchorMissing("group_textboxes: heap element unpacking not found")
+    id1, id2, o1, o2 = names[2], names[3], names[4], names[5]
+    guard = [s for s in lp.body if isinstance(s, ast.If) and "notindone" in "".join(unparse(s.test).split())]
+    gt = "".join(unparse(guard[0].test).split()).replace("(", "").replace(")", "") if guard else ""
+    r.check(len(guard) == 1 and f"{id1}notindone" in gt and f"{id2}notindone" in gt and isinstance(guard[0].test, ast.BoolOp) and isinstance(guard[0].test.op, ast.And), site(f, guard[0]) if guard else site(f), f.qualname, "a pair is merged only if neither member was merged before", why=f"guard `{gt}`")
+    if not guard:
+        return
+    body = guard[0].body
+    fn = ast.FunctionDef(name="_merge", args=f.node.args, body=body, decorator_list=[], lineno=guard[0].lineno, col_offset=0)  # type: ignore[attr-defined]
+    g = build_cfg(fn, exc_edges=False)
+    creates = [n for n in g.nodes if n.kind == "stmt" and isinstance(n.ast, (ast.Assign, ast.AnnAssign)) and unparse(n.ast.targets[0] if isinstance(n.ast, ast.Assign) else n.ast.target) == "group"]
+    ok_members = bool(creates) and all(isinstance(getattr(n.ast, "value", None), ast.Call) and "".join(unparse(n.ast.value.args[0]).split()) == f"[{o1},{o2}]" for n in creates)
+    r.check(ok_members, site(f, creates[0].ast) if creates else site(f), f.qualname, f"the group consists of exactly the two popped elements [{o1}, {o2}]", why=f"{[unparse(n.ast)[:60] for n in creates]}")
+    need = {f"plane.remove({o1})": "the first member leaves the plane", f"plane.remove({o2})": "the second member leaves the plane", "plane.add(group)": "the group enters the plane", f"done.update([{id1},{id2}])": "both members are marked as merged"}
+    for txt, what in need.items():
+        bad = None
+        for c in creates:
+            wit = g.all_path_pass(c.id, lambda n, txt=txt: n.ast is not None and n.kind == "stmt" and "".join(unparse(n.ast).split()) == txt)
+            if wit is not None:
+                bad = wit
+        cnt = sum(1 for n in g.nodes if n.ast is not None and n.kind == "stmt" and "".join(unparse(n.ast).split()) == txt)
+        r.check(bool(creates) and bad is None and cnt == 1, site(f, guard[0]), f.qualname, f"after a group is formed, {what} on every path, exactly once (`{txt}`)", why="a path from the creation of the group to the end of the iteration misses it" if bad is not None else f"{cnt} occurrence(s)")
+    r.check("returnlist(cast(LTTextGroup,g)forginplane)" in src.replace("((", "(").replace("))", ")"), site(f), f.qualname, "the result is everything left in the plane", why="return changed")
